@@ -748,7 +748,7 @@ func verifC17Generate() []string {
 	if vh.Thorough() {
 		g.exhaustive([]string{"0000", "0001", "0100"}, 7, cfgs)                       // 6^7 = 279936 sequences
 		g.exhaustive([]string{"000000", "000001", "0000ff", "00ff00"}, 6, cfgs)       // 8^6 = 262144
-		g.exhaustive([]string{"6161", "6162", "6261", "6262"}, 6, cfgs)               // all four keys over {a,b}^2
+		g.exhaustive([]string{"6161", "6162", "6261", "6262"}, 5, cfgs)               // all four keys over {a,b}^2
 		g.exhaustive([]string{"00", "01"}, 8, cfgs)                                   // 4^8, single-byte keys
 	} else {
 		g.exhaustive([]string{"0000", "0001", "0100"}, 4, cfgs)                 // 1296
